@@ -29,6 +29,9 @@ RULES = [
     ("let-mul", "(let 1 (mul ?a ?b) ?c)", "(mul (let 1 ?a ?c) (let 1 ?b ?c))", None),
     ("let-sum", "(let 1 (sum 2 ?a) ?c)", "(sum 2 (let 1 ?a ?c))", None),
     ("let-subst", "(let 1 ?a ?c)", "(subst ?a (var 1) ?c)", None),
+    # valid rules whose only effect can be a slot redundancy (no new class, no merge of two classes)
+    ("mul0-var", "(mul 0 ?a)", "(mul 0 (var 3))", None),
+    ("sum-rename", "(sum 1 (mul 0 ?a))", "(sum 2 (mul 0 (var 3)))", None),
 ]
 SUBPOOL = ["0", "1", "2", "(var 1)", "(var 2)", "(var 3)", "(add (var 1) 1)", "(mul (var 1) (var 1))", "(mul (var 2) (var 3))", "(sum 3 (mul (var 3) (var 1)))"]
 
